@@ -24,7 +24,7 @@ import (
 // the workers are awaited through hook H6.
 
 type hyStep struct {
-	Op  string `json:"op"` // set | get | del | overflow | adv | advq | settle | slowget | slowdel | slowprom | queuedel | queuereset
+	Op  string `json:"op"` // set | get | del | overflow | adv | advq | settle | slowget | slowdel | slowprom | slowexp | queuedel | queuereset
 	K   int    `json:"k,omitempty"`
 	TTL int64  `json:"ttl,omitempty"`
 	N   int    `json:"n,omitempty"`
@@ -53,6 +53,11 @@ type hySec struct {
 	armedGet   atomic.Bool
 	enteredGet chan int
 	slowAll    atomic.Bool // every Set sleeps slowFor first (a backlog builds up in the hand-off queue)
+	// gated Delete: when armed, the next Delete announces its key on 'enteredDel' and waits (at most
+	// 30 ms) until 'releaseDel' is closed before it takes effect
+	armedDel   atomic.Bool
+	enteredDel chan int
+	releaseDel chan struct{}
 
 	mu        sync.Mutex
 	m         map[int]hySecEntry
@@ -119,6 +124,17 @@ func (s *hySec) Set(key int, value int, cost int64, expire int64) error {
 	return nil
 }
 func (s *hySec) Delete(key int) error {
+	if s.armedDel.CompareAndSwap(true, false) {
+		rel := s.releaseDel
+		select {
+		case s.enteredDel <- key:
+		default:
+		}
+		select {
+		case <-rel:
+		case <-time.After(30 * time.Millisecond):
+		}
+	}
 	s.mu.Lock()
 	defer s.mu.Unlock()
 	i := s.delCalls
@@ -191,7 +207,7 @@ func execHybrid(c hyCase, x *verifkit.Ctx, c15 bool) (fail *verifkit.Failure) {
 		}
 	}()
 	vkResetWall()
-	sec := &hySec{m: map[int]hySecEntry{}, failSet: c.FailSet, failDel: c.FailDel, entered: make(chan int, 1), enteredGet: make(chan int, 1), slowFor: 4 * time.Millisecond}
+	sec := &hySec{m: map[int]hySecEntry{}, failSet: c.FailSet, failDel: c.FailDel, entered: make(chan int, 1), enteredGet: make(chan int, 1), enteredDel: make(chan int, 1), slowFor: 4 * time.Millisecond}
 	seq := 0
 	loaderCalls := 0
 	model := map[int]*hyModel{}
@@ -824,6 +840,112 @@ func execHybrid(c hyCase, x *verifkit.Ctx, c15 bool) (fail *verifkit.Failure) {
 					return f
 				}
 			}
+		case "slowexp":
+			// key K lives only in the secondary tier and its deadline has passed: the Get that finds the
+			// expired copy removes it there. That secondary Delete is held open, and meanwhile a watcher stores
+			// a new value for K, pushes it out of memory again and lets the workers write it back; only then
+			// may the Delete take effect. If the Get removes the copy while it still holds the shard lock
+			// (as it must), the watcher's Set waits for it and nothing is lost; a removal decided under the
+			// lock but carried out after it would erase the new value (seeded C15g).
+			if f := settle(); f != nil {
+				return f
+			}
+			m := model[st.K]
+			sec.mu.Lock()
+			_, hasCopy := sec.m[st.K]
+			sec.mu.Unlock()
+			if c.Loading || m == nil || m.unknown || m.deleted || memGet(st.K) != nil || !hasCopy || m.deadline == 0 || now() < m.deadline {
+				x.Class("slowexp-skipped(no expired copy that lives only in the secondary tier)")
+				continue
+			}
+			seq++
+			wv := seq
+			type xres struct{ ran, ok bool }
+			resc := make(chan xres, 1)
+			stop := make(chan struct{})
+			select {
+			case <-sec.enteredDel:
+			default:
+			}
+			rel := make(chan struct{})
+			sec.releaseDel = rel
+			sec.armedDel.Store(true)
+			nFill := c.MaxSize + 3
+			fillBase := fresh
+			fresh += nFill
+			fillVals := map[int]int{}
+			fillSeq := seq
+			seq += nFill
+			go func() {
+				select {
+				case k := <-sec.enteredDel:
+					if k != st.K {
+						verifkit.AddCount("slowexp_foreign_announcement", 1)
+						close(rel)
+						resc <- xres{}
+						return
+					}
+					ok := store.Set(k, wv, 1, 0)
+					// the fillers are stored four times over (same value each time): K has been written at least
+					// twice, so fillers seen once would lose every admission duel against it and K would stay
+					for pass := 0; pass < 4; pass++ {
+						for j := 1; j <= nFill; j++ {
+							if store.Set(fillBase+j, fillSeq+j, 1, 0) {
+								fillVals[fillBase+j] = fillSeq + j
+							}
+						}
+					}
+					store.Wait()
+					hySettle()
+					close(rel)
+					resc <- xres{true, ok}
+				case <-stop:
+					close(rel)
+					resc <- xres{}
+				}
+			}()
+			_, rf := read(st.K)
+			sec.armedDel.Store(false)
+			close(stop)
+			var xr xres
+			select {
+			case xr = <-resc:
+			case <-time.After(30 * time.Second):
+				f := failf("hybrid/write-stuck", "a Set issued while the Get was removing an expired secondary copy did not return")
+				f.Sticky = true
+				return f
+			}
+			select {
+			case <-sec.enteredDel:
+			default:
+			}
+			for k, v := range fillVals {
+				freshVals[k] = v
+			}
+			if rf != nil {
+				return rf
+			}
+			if !xr.ran {
+				x.Class("slowexp-no-secondary-delete")
+				if f := settle(); f != nil {
+					return f
+				}
+				break
+			}
+			x.Class("write-while-expired-copy-is-removed")
+			x.ClassIf(memGet(st.K) == nil, "write-while-expired-copy-is-removed, demoted again")
+			if xr.ok {
+				model[st.K] = &hyModel{val: wv}
+			} else {
+				model[st.K] = &hyModel{unknown: true}
+			}
+			if f := settle(); f != nil {
+				return f
+			}
+			if f := demotionCheck(); f != nil {
+				f.Sig += "/after-write-during-expired-copy-removal"
+				return f
+			}
 		case "slowdel":
 			// a slow secondary Set (4 ms) during a demotion, and a Delete of exactly that key issued
 			// while the worker is inside it
@@ -1080,6 +1202,14 @@ func genHybrid(c15 bool) func(t *rapid.T) hyCase {
 				return []hyStep{{Op: "set", K: k, TTL: rapid.SampledFrom([]int64{0, 0, 50e9}).Draw(t, "pttl")}, {Op: "overflow", N: c.MaxSize + 2}, {Op: "settle"},
 					{Op: "slowprom", K: k, N: rapid.IntRange(0, 1).Draw(t, "pwrite")}}
 			}
+			if !c.Loading && c.Prob == 1 && len(c.FailSet) == 0 && len(c.FailDel) == 0 && rapid.IntRange(0, 11).Draw(t, "expScenario") == 0 {
+				// a TTL'd key is demoted, its deadline passes, and somebody writes it while the Get that finds
+				// the expired copy is removing it from the secondary tier
+				k := rapid.IntRange(0, c.Keys-1).Draw(t, "xk")
+				ttl := rapid.SampledFrom([]int64{2e9, 50e9}).Draw(t, "xttl")
+				return []hyStep{{Op: "set", K: k, TTL: ttl}, {Op: "overflow", N: c.MaxSize + 2}, {Op: "settle"},
+					{Op: "adv", Dt: ttl + rapid.SampledFrom([]int64{0, 1, 1e9}).Draw(t, "xover")}, {Op: "slowexp", K: k}}
+			}
 			if rapid.IntRange(0, 9).Draw(t, "scenario") == 0 {
 				k := rapid.IntRange(0, c.Keys-1).Draw(t, "gk")
 				ttl := rapid.SampledFrom([]int64{2e9, 50e9}).Draw(t, "gttl")
@@ -1110,7 +1240,7 @@ func TestVerifC14(t *testing.T) {
 	verifkit.Run(t, verifkit.Spec[hyCase]{
 		ID: "C14", Gen: genHybrid(false),
 		Exec:        func(c hyCase, x *verifkit.Ctx) *verifkit.Failure { return execHybrid(c, x, false) },
-		Rule:        "C14: rapid draws MaxSize 2..16, plain or loading hybrid store, entry pool on in a third of the cases, 1..4 workers, admission probability {0,0.3,1}, optional failure scripts for secondary Set/Delete, whether the workers are awaited after each step, and up to 40 steps of Set/SetWithTTL (unique values) / Get / Delete / overflow(n) / advance+tick / advance without a tick (cached clock up to 29 s stale) / settle / 'slowget' (a 4 ms slow secondary Set during a demotion with a Get of exactly that key issued meanwhile) / 'slowprom' (a 4 ms slow secondary Get during a promotion with a Delete or Set of that key issued meanwhile) / 'slowdel' (a 4 ms slow secondary Set during a demotion with a Delete of exactly that key issued while the worker is inside it); non-trivial = a key was demoted and later promoted, or a secondary call failed",
+		Rule:        "C14: rapid draws MaxSize 2..16, plain or loading hybrid store, entry pool on in a third of the cases, 1..4 workers, admission probability {0,0.3,1}, optional failure scripts for secondary Set/Delete, whether the workers are awaited after each step, and up to 40 steps of Set/SetWithTTL (unique values) / Get / Delete / overflow(n) / advance+tick / advance without a tick (cached clock up to 29 s stale) / settle / 'slowget' (a 4 ms slow secondary Set during a demotion with a Get of exactly that key issued meanwhile) / 'slowprom' (a 4 ms slow secondary Get during a promotion with a Delete or Set of that key issued meanwhile) / 'slowdel' (a 4 ms slow secondary Set during a demotion with a Delete of exactly that key issued while the worker is inside it) / 'slowexp' (the secondary Delete by which a Get removes an expired copy is held open while a watcher stores a new value for that key, pushes it out of memory and lets the workers write it back); non-trivial = a key was demoted and later promoted, or a secondary call failed",
 		Assumptions: hyAssumptions,
 	})
 }
@@ -1139,7 +1269,7 @@ func TestVerifC15(t *testing.T) {
 	verifkit.Run(t, verifkit.Spec[hyCase]{
 		ID: "C15", Gen: genHybrid(true),
 		Exec:        func(c hyCase, x *verifkit.Ctx) *verifkit.Failure { return execHybrid(c, x, true) },
-		Rule:        "C15: same harness with admission probability 1 and the workers awaited after every step; a third of the cases script failures of the secondary Set; in the others 'slowget' steps read the key a worker is copying while its (4 ms slow) secondary Set is running and require a hit without reload; non-trivial = a loader-originated or TTL-less entry was evicted from memory, or a secondary Set failed",
+		Rule:        "C15: same harness with admission probability 1 and the workers awaited after every step; a third of the cases script failures of the secondary Set; in the others 'slowget' steps read the key a worker is copying while its (4 ms slow) secondary Set is running and require a hit without reload, and 'slowexp' steps (see C14) are followed by the demotion check; non-trivial = a loader-originated or TTL-less entry was evicted from memory, or a secondary Set failed",
 		Assumptions: hyAssumptions,
 	})
 }
